@@ -4,11 +4,11 @@ import ast, hashlib, json, os, re, shutil, subprocess, sys, time
 
 VERIF = os.path.dirname(os.path.dirname(os.path.abspath(__file__)))
 SPEC = os.path.join(VERIF, 'spec')
-HARNESS = os.path.join(VERIF, 'harness')
+HARNESS = os.environ.get('VERIF_HARNESS', os.path.join(VERIF, 'harness'))   # overridden only by tools/mutant.sh
 BIN = os.path.join(HARNESS, 'target', 'release', 'mwverif')
-WORK = os.path.join(VERIF, 'work')
-EVID = os.path.join(VERIF, 'evidence')
-REPLAYS = os.path.join(VERIF, 'replays')
+WORK = os.environ.get('VERIF_WORK', os.path.join(VERIF, 'work'))
+EVID = os.environ.get('VERIF_EVID', os.path.join(VERIF, 'evidence'))
+REPLAYS = os.environ.get('VERIF_REPLAYS', os.path.join(VERIF, 'replays'))
 TLA_JAR = '/opt/veriftools/tla/tla2tools.jar:/opt/veriftools/tla/CommunityModules-deps.jar'
 
 
